@@ -7,8 +7,10 @@ import (
 	"os"
 	"os/exec"
 	"path/filepath"
+	"runtime"
 	"sort"
 	"strings"
+	"sync"
 )
 
 // closedWorld verifies premise G6 on every run: the fields the
@@ -139,30 +141,100 @@ func selfTest(prop string, def *propDef, tier, root string) ([]string, bool) {
 		return []string{"base analysis failed: " + err.Error()}, false
 	}
 	baseFail := failingKeys(base)
+	// every variant is analysed in a process of its own (the analyser keeps per-load state in package variables),
+	// as many at a time as there are processors; the verdicts are drawn afterwards, in the order of the list
+	var mineVs []variantMeta
 	for _, v := range vs {
-		mine := false
 		for _, p := range v.Properties {
 			if p == prop {
-				mine = true
+				mineVs = append(mineVs, v)
+				break
 			}
 		}
-		if !mine {
-			continue
+	}
+	type vout struct {
+		keys     map[string]Oblig
+		err      error
+		copyErr  error
+		patchErr error
+	}
+	outs := make([]vout, len(mineVs))
+	{
+		self, _ := os.Executable()
+		nw := runtime.NumCPU()
+		if nw > 16 {
+			nw = 16
 		}
-		patch := filepath.Join(verifDir, v.Patch)
-		tmp, err := copyTree(root)
-		if err != nil {
-			lines = append(lines, "cannot copy tree: "+err.Error())
+		if nw < 1 {
+			nw = 1
+		}
+		jobs := make(chan int)
+		var wg sync.WaitGroup
+		for w := 0; w < nw; w++ {
+			wg.Add(1)
+			go func() {
+				defer wg.Done()
+				for i := range jobs {
+					v := mineVs[i]
+					tmp, err := copyTree(root)
+					if err != nil {
+						outs[i].copyErr = err
+						continue
+					}
+					if err := applyPatch(tmp, filepath.Join(verifDir, v.Patch)); err != nil {
+						outs[i].patchErr = err
+						os.RemoveAll(tmp)
+						continue
+					}
+					cmd := exec.Command(self, "-all", "-root", tmp)
+					cmd.Env = append(os.Environ(), "SLUGCHECK_ONLY="+prop)
+					b, _ := cmd.Output()
+					os.RemoveAll(tmp)
+					text := string(b)
+					keys := map[string]Oblig{}
+					var aerr error
+					for _, ln := range strings.Split(text, "\n") {
+						switch {
+						case strings.HasPrefix(ln, "CHECKER-ERROR"):
+							aerr = fmt.Errorf("%s", strings.TrimSpace(strings.TrimPrefix(ln, "CHECKER-ERROR")))
+						case strings.HasPrefix(ln, "FAILKEY "+prop+" "):
+							k := strings.TrimPrefix(ln, "FAILKEY "+prop+" ")
+							rule, key := k, ""
+							if j := strings.Index(k, "|"); j >= 0 {
+								rule, key = k[:j], k[j+1:]
+							}
+							if rule == "analyser-panic" {
+								aerr = fmt.Errorf("analyser panic: %s", key)
+								continue
+							}
+							keys[k] = Oblig{Rule: rule, Key: key}
+						}
+					}
+					if aerr == nil && !strings.Contains(text, "ALLDONE") {
+						aerr = fmt.Errorf("the analysis of the variant did not finish")
+					}
+					outs[i].keys, outs[i].err = keys, aerr
+				}
+			}()
+		}
+		for i := range mineVs {
+			jobs <- i
+		}
+		close(jobs)
+		wg.Wait()
+	}
+	for vi, v := range mineVs {
+		if outs[vi].copyErr != nil {
+			lines = append(lines, "cannot copy tree: "+outs[vi].copyErr.Error())
 			ok = false
 			continue
 		}
 		func() {
-			defer os.RemoveAll(tmp)
-			if err := applyPatch(tmp, patch); err != nil {
+			if outs[vi].patchErr != nil {
 				lines = append(lines, fmt.Sprintf("%s %s: SKIPPED (patch does not apply to the current tree)", v.Kind, v.Patch))
 				return
 			}
-			c, err := analyse(prop, def, tier, tmp, defaultConfig)
+			cKeys, err := outs[vi].keys, outs[vi].err
 			if err != nil {
 				if v.Kind == "mutant" {
 					lines = append(lines, fmt.Sprintf("mutant %s: SKIPPED (variant does not load: %v)", v.Patch, firstLine(err.Error())))
@@ -174,7 +246,7 @@ func selfTest(prop string, def *propDef, tier, root string) ([]string, bool) {
 			}
 			var newFails []string
 			ruleHit := false
-			for k, o := range failingKeys(c) {
+			for k, o := range cKeys {
 				if _, was := baseFail[k]; was {
 					continue
 				}
@@ -199,7 +271,7 @@ func selfTest(prop string, def *propDef, tier, root string) ([]string, bool) {
 			case "repair":
 				// a scratch repair of an open known finding: the finding's obligation must be discharged and nothing else may fire
 				gone := false
-				now := failingKeys(c)
+				now := cKeys
 				for k, o := range baseFail {
 					for _, r := range v.Rules {
 						if o.Rule == r {
